@@ -177,8 +177,18 @@ def run(prop, tree, report, seed):
     if new or report.analysis_errors:
         return {"status": "skipped: the current tree itself has new violations or analysis errors", "failures": []}
     out = {"status": "ran", "failures": []}
-    seeded = sorted(glob.glob(os.path.join(VERIF, "seeded", f"{prop}-m*", "patch.diff")) +
-                    glob.glob(os.path.join(VERIF, "seeded", f"{prop}-r2m*", "patch.diff")))
+    # seeded variants this check is on record as reporting (seeded/EXPECTED.json, regenerated by
+    # tools/expected_gen.py from a full run) plus every variant made for this property
+    try:
+        expected = json.load(open(os.path.join(VERIF, "seeded", "EXPECTED.json")))
+    except (OSError, ValueError):
+        expected = {}
+    own = {os.path.basename(os.path.dirname(p)) for p in
+           glob.glob(os.path.join(VERIF, "seeded", f"{prop}-m*", "patch.diff")) +
+           glob.glob(os.path.join(VERIF, "seeded", f"{prop}-r2m*", "patch.diff"))}
+    must = {v for v, e in expected.items() if prop in e.get("reported_by", [])}
+    seeded = sorted(os.path.join(VERIF, "seeded", v, "patch.diff") for v in own | must
+                    if os.path.exists(os.path.join(VERIF, "seeded", v, "patch.diff")))
     twins = sorted(glob.glob(os.path.join(VERIF, "twins", "*", "patch.diff")))
     jobs = [(prop, p) for p in seeded + twins]
     res = {}
@@ -190,9 +200,22 @@ def run(prop, tree, report, seed):
     for p in seeded:
         r = res[p]
         mid = os.path.basename(os.path.dirname(p))
-        sv.append({"variant": mid, **r})
-        if r["status"] in ("clean", "analysis-error"):
+        e = expected.get(mid, {})
+        entry = {"variant": mid, **r}
+        if r["status"] == "violation":
+            pass
+        elif mid in must or (not expected and r["status"] == "clean"):
             out["failures"].append(f"seeded variant {mid} is not reported ({r['status']}: {r.get('detail', '')})")
+        elif r["status"] == "clean":
+            # made for this property, decided through a clause another property's check owns
+            others = [p_ for p_ in e.get("reported_by", []) if p_ != prop]
+            if others:
+                entry["note"] = f"not visible to this check's clauses; reported by {', '.join(others)}"
+            else:
+                out["failures"].append(f"seeded variant {mid} is reported by no check")
+        else:
+            entry["note"] = "refused: the changed construct is outside the shapes this check can judge (exit 2 on that tree)"
+        sv.append(entry)
     tw = []
     for p in twins:
         r = res[p]
